@@ -90,38 +90,86 @@ def wid3(ctx, c):
         if calls and params:
             c.check(all(cl.args or cl.keywords for cl in calls), "hex:width-passed", "hex passes its width to get_negative", "get_negative() called without the width",
                     "NumericValue.hex renders a negative value without telling get_negative the field width", repo.loc(hx, hx.node))
-    # parse-time limits in __init__
+    # parse-time limits in __init__: per literal kind, fold the raising tests at boundary magnitudes
     init = repo.method(NV, "__init__", inherited=False)
     wi = repo.loc(init, init.node)
-    limits = []
-    for n in ast.walk(init.node):
-        if isinstance(n, ast.If) and n.body and isinstance(n.body[-1], ast.Raise):
-            limits.append((U(n.test), n))
-    found = {"int65535": 0, "neg32768": 0, "hex4": 0, "bin": 0}
-    for t, node in limits:
-        m = re.fullmatch(r"self\.int > (\w+)", t)
-        if m:
-            k = try_fold(ast.parse(m.group(1), mode="eval").body)
-            if k is not None and k <= 32768 and "negative" in U(init.node)[U(init.node).find(t):][:300] and k > 255:
-                found["neg32768"] += 1
-                c.check(k <= 32768, "__init__:negative-limit", "<= 32768", "accepts down to -%d" % k, "negative literals down to -%d are accepted; 16 bits hold -32768" % k, repo.loc(init, node))
+    from ..inline import flatten
+    import copy
+    init_flat = flatten(repo, init, depth=2)
+    body = body_without_doc(init_flat)
+
+    class Sub(ast.NodeTransformer):
+        """len(data.group('value')) -> __digits ; int(data.group('value'), base) -> __value"""
+        def visit_Call(self, node):
+            self.generic_visit(node)
+            t = U(node)
+            if re.fullmatch(r"len\(\w+\.group\('value'\)\)", t):
+                return ast.copy_location(ast.Name(id="__digits", ctx=ast.Load()), node)
+            return node
+    spec = {
+        "INT_REGEX": ("value", [0, 255, 256, 65535], [65536, 70000, 100000]),
+        "NEG_INT_REGEX": ("value", [1, 128, 129, 32768], [32769, 40000, 65536, 70000]),
+        "HEX_REGEX": ("digits", [1, 2, 3, 4], [5, 6, 8]),
+        "BINARY_REGEX": ("digits", [8, 16], [1, 4, 7, 9, 12, 15, 17, 32]),
+    }
+    cur = None
+    seen_kinds = set()
+    for st in body:
+        if isinstance(st, ast.Assign) and isinstance(st.value, ast.Call) and U(st.value.func).endswith(".match") and U(st.value.func).split(".")[0] in spec:
+            cur = U(st.value.func).split(".")[0]
+        elif isinstance(st, ast.If) and cur and isinstance(st.test, ast.Name):
+            kind, accept, reject = spec[cur]
+            seen_kinds.add(cur)
+            tests = [n.test for n in ast.walk(st) if isinstance(n, ast.If) and n.body and isinstance(n.body[-1], ast.Raise)]
+            # names bound to the digit count / the value inside this branch
+            alias = {}
+            for n in ast.walk(st):
+                if isinstance(n, ast.Assign) and isinstance(n.targets[0], (ast.Name, ast.Attribute)):
+                    t = U(n.value)
+                    if re.fullmatch(r"len\(\w+\.group\('value'\)\)", t):
+                        alias[U(n.targets[0])] = "digits"
+                    elif re.fullmatch(r"int\(\w+\.group\('value'\), \d+\)", t):
+                        alias[U(n.targets[0])] = "value"
+
+            def rejected(x):
+                env = dict(ctx.env)
+                env["__digits"] = x if kind == "digits" else 99
+                for nm, what in alias.items():
+                    env[nm] = x if what == kind else (4 if what == "digits" else 0)
+                if kind == "value":
+                    env.setdefault("self.int", x)
+                return any(fold(Sub().visit(copy.deepcopy(t_)), env) for t_ in tests)
+            site = "__init__:%s" % cur
+            try:
+                acc_bad = [x for x in reject if not rejected(x)]
+                rej_bad = [x for x in accept if rejected(x)]
+            except NotConst as e:
+                c.undecided(site, "limit-test-not-foldable", str(e), repo.loc(init, st))
+                cur = None
+                continue
+            what = {"INT_REGEX": "decimal literal", "NEG_INT_REGEX": "negative literal of magnitude", "HEX_REGEX": "hex literal with digit count", "BINARY_REGEX": "binary literal with digit count"}[cur]
+            if acc_bad:
+                c.finding(site, "accepts %s %s" % (what, acc_bad[0]), "NumericValue accepts a %s %s: it does not fit 16 bits (or is not a byte/word pattern) and is then encoded as something else" % (what, acc_bad[0]),
+                          repo.loc(init, st))
+            elif rej_bad:
+                c.finding(site, "rejects %s %s" % (what, rej_bad[0]), "NumericValue rejects a valid %s %s" % (what, rej_bad[0]), repo.loc(init, st))
             else:
-                found["int65535"] += 1
-                c.check(k is not None and k <= 65535, "__init__:int-limit@%d" % found["int65535"], "<= 65535", "accepts up to %s" % k,
-                        "integer values up to %s are accepted; 16 bits hold 65535" % k, repo.loc(init, node))
-        m = re.fullmatch(r"len\(data\.group\('value'\)\) > (\w+)", t)
-        if m:
-            k = try_fold(ast.parse(m.group(1), mode="eval").body)
-            found["hex4"] += 1
-            c.check(k is not None and k <= 4, "__init__:hex-digits", "<= 4 digits", "accepts %s hex digits" % k, "hex literals of up to %s digits are accepted; 16 bits are 4 digits" % k, repo.loc(init, node))
-        if "bit_length" in t:
-            vals = sorted(try_fold(x) for x in [y.comparators[0] for y in ast.walk(node.test) if isinstance(y, ast.Compare)])
-            found["bin"] += 1
-            c.check(set(vals) <= {8, 16} and vals, "__init__:binary-digits", "8 or 16 digits", "accepts %s binary digits" % vals,
-                    "binary literals of %s digits are accepted; only 8 or 16 map onto a byte or word" % vals, repo.loc(init, node))
-    for k, v in found.items():
-        if v == 0:
-            c.finding("__init__:%s" % k, "limit check missing", "NumericValue.__init__ has no range check for %s literals" % k, wi)
+                c.ok(site, "accepts %s, rejects %s" % (accept, reject), repo.loc(init, st))
+            cur = None
+    for k in spec:
+        if k not in seen_kinds:
+            c.undecided("__init__:%s" % k, "literal-branch-not-recognised", "", wi)
+    # the int-typed constructor path: values above 65535 are rejected
+    for n in ast.walk(init_flat):
+        if isinstance(n, ast.If) and re.search(r"type\(value\) (==|is) int|isinstance\(value, int\)", U(n.test)):
+            tests = [x.test for x in ast.walk(n) if isinstance(x, ast.If) and x.body and isinstance(x.body[-1], ast.Raise)]
+            try:
+                rej = lambda v: any(fold(t_, dict(ctx.env, **{"self.int": v, "value": v})) for t_ in tests)
+                good = not rej(65535) and rej(65536)
+                c.check(good, "__init__:int-arg", "integers above 65535 are rejected", "65535 rejected: %s, 65536 rejected: %s" % (rej(65535), rej(65536)),
+                        "NumericValue(int) %s" % ("accepts 65536" if not rej(65536) else "rejects 65535"), repo.loc(init, n))
+            except NotConst as e:
+                c.undecided("__init__:int-arg", "limit-test-not-foldable", str(e), repo.loc(init, n))
     # direct-page test: a value marked one byte wide must be < 256
     pd = C.methods.get("post_init_direct_check")
     if pd:
@@ -188,7 +236,8 @@ def wid5(ctx, c):
                 "%s = %r rejects %s and accepts %s" % (name, p, miss, extra), "%s:%d" % (mod.rel, node.lineno))
     c.floor("literal patterns", len(pats), 4)
     init = repo.method(NV, "__init__", inherited=False)
-    body = body_without_doc(init.node)
+    from ..inline import flatten
+    body = body_without_doc(flatten(repo, init, depth=2))
     cur = None
     n = 0
     for st in body:
@@ -341,8 +390,21 @@ def lay5(ctx, c):
                 order.append((n.lineno, m.group(1), start, step, n))
     order.sort()
     names = [o[1] for o in order]
-    c.check(names == ["op_code", "post_byte", "additional"], "get_binary_array:order", "op_code, post_byte, additional", "order %s" % names,
-            "get_binary_array emits %s; an instruction is opcode, post-byte, operand" % names, where)
+    if names:
+        c.check(names == ["op_code", "post_byte", "additional"], "get_binary_array:order", "op_code, post_byte, additional", "order %s" % names,
+                "get_binary_array emits %s; an instruction is opcode, post-byte, operand" % names, where)
+    else:
+        # another shape (a loop over the three fields, a helper per field): order of first mention of each field
+        first = {}
+        for n in ast.walk(f.node):
+            if isinstance(n, ast.Attribute) and n.attr in ("op_code", "post_byte", "additional") and U(n.value).endswith("code_pkg"):
+                first.setdefault(n.attr, (n.lineno, n.col_offset))
+        if len(first) == 3:
+            seq = [k for k, _ in sorted(first.items(), key=lambda kv: kv[1])]
+            c.check(seq == ["op_code", "post_byte", "additional"], "get_binary_array:order", "op_code, post_byte, additional", "order %s" % seq,
+                    "get_binary_array takes the fields in order %s; an instruction is opcode, post-byte, operand" % seq, where)
+        else:
+            c.undecided("get_binary_array:order", "shape-not-recognised", "fields mentioned: %s" % sorted(first), where)
     for ln, name, start, step, node in order:
         c.check(start == 0 and step == 2, "get_binary_array:%s" % name, "every byte (2 hex digits) emitted", "range start %s step %s" % (start, step),
                 "get_binary_array walks the %s hex string from %s in steps of %s" % (name, start, step), repo.loc(f, node))
@@ -357,7 +419,6 @@ def lay5(ctx, c):
             c.undecided("get_binary_array:%s:digits" % name, "byte-construction-shape-unknown", "", repo.loc(f, node))
         else:
             c.ok("get_binary_array:%s:digits" % name, "byte = digits i, i+1 base 16", repo.loc(f, node))
-    c.floor("emission loops", len(order), 3)
     s = repo.method("Statement", "__str__")
     seq = re.findall(r"code_pkg\.(\w+)\.hex\(\)", U(s.node))
     c.check(seq[:3] == ["op_code", "post_byte", "additional"], "Statement.__str__:order", "listing shows op_code, post_byte, additional", "listing order %s" % seq[:3],
